@@ -64,6 +64,12 @@ func genInventory(r *vk.RNG, maxN int) []CSpec {
 	inv := make([]CSpec, n)
 	for i := range inv {
 		cs := CSpec{ID: fmt.Sprintf("%02dabc%02d", i, r.Intn(100)), Name: vk.Pick(r, c02Names), Image: vk.Pick(r, c02Images), State: vk.Pick(r, c02States), Labels: map[string]string{}}
+		if r.Chance(1, 2) {
+			// creation times in no particular order of the listing: long before, inside and after the windows
+			// the queries ask for (a container created after the window's end may still have been written to
+			// with older timestamps, and is a matching container like any other)
+			cs.Created = vk.Pick(r, []int64{1600000000, 1699999000, 1700000100, 1700000230, 1700000400, 1800000000})
+		}
 		for _, k := range c02Keys {
 			if r.Chance(1, 3) {
 				cs.Labels[k] = vk.Pick(r, c02Vals)
@@ -285,6 +291,24 @@ func runC02(r *vk.Run) {
 				}
 			}
 			c.Count("selectors_after_other_uses_of_their_texts", 1)
+		}
+		if c.Idx%9 == 4 && len(want) >= 2 {
+			// one of the matching containers refuses its log (removed since the listing, unreadable driver):
+			// the answer cannot be "the lines of the others" -- the containers read would not be the matching ones
+			victim := want[rng.Intn(len(want))]
+			for _, fc := range fd.Containers {
+				if fc.C.ID == victim {
+					fc.LogsErr = c14OpenErrs[1+rng.Intn(len(c14OpenErrs)-1)]
+				}
+			}
+			_, rerr := evalQuery(dockerQuerier(fd), query, p)
+			c.Eval(1)
+			if rerr == nil {
+				c.Fail("", fmt.Sprintf("selector %s matches %v; container %s refused its log and the query answered without it, reporting no error", query, want, victim), map[string]any{"inventory": inv, "query": query, "want_ids": want, "refusing": victim})
+				return
+			}
+			c.Count("refusals_among_several_matching_containers", 1)
+			return
 		}
 		res, err := evalQuery(dockerQuerier(fd), query, p)
 		c.Eval(1)
@@ -620,6 +644,7 @@ func runC02(r *vk.Run) {
 	})
 	r.Require("e2e_runs", 15)
 	r.Require("partial_selections", 500)
+	r.Require("refusals_among_several_matching_containers", 100)
 	r.Require("absent_label_matchers", 300)
 	r.Require("since_until_pairs", 2000)
 	r.Require("lines_traced_to_origin", 1000)
